@@ -264,6 +264,93 @@ func runC05(c *core.Ctx) core.Meta {
 	// R05.9: one ALU per compute unit (fresh.go)
 	checkPerUnitInstances(c, "R05.9")
 
+	// ---------------- R05.12 no state of a simulation lives in package-level variables ----------------
+	st12 := c.Rule("R05.12", "a simulation keeps its state in the objects of its platform: no function of the simulation packages (init functions excepted) assigns to a package-level variable of the module, except the listed ones whose value no simulated time or result depends on. A flag or counter hoisted to package level survives from one simulation to the next in the same process (and is shared by all GPUs): the second run of a workload starts `warm` and reports other times than the first", 3)
+	globalWriteOK := map[string]string{
+		"amd/insts.FormatTable":              "built once by initFormatTable, which only the package's init calls; the same constant table in every run",
+		"amd/sampling.SampledEngineInstance": "wavefront sampling, used only with -wf-sampling: created by InitSampledEngine when the flag is parsed and reset at every kernel launch",
+		"nvidia/tracereader.kernelScanner":   "the reader's cursor into the file being parsed: assigned anew at the start of every ReadTrace before it is used",
+	}
+	usedGlobalOK := map[string]bool{}
+	for _, p := range pkgs {
+		rel := core.RelPkg(p.PkgPath)
+		if strings.HasPrefix(rel, "amd/samples/runner") && !strings.Contains(rel, "timingconfig") && !strings.Contains(rel, "emusystem") {
+			continue
+		}
+		core.FuncDecls(p, func(fd *ast.FuncDecl) {
+			if fd.Name.Name == "init" && fd.Recv == nil {
+				return
+			}
+			rootVar := func(e ast.Expr) *types.Var {
+				for {
+					switch x := e.(type) {
+					case *ast.ParenExpr:
+						e = x.X
+						continue
+					case *ast.SelectorExpr:
+						// pkg.Var or value.field
+						if id, ok := x.X.(*ast.Ident); ok {
+							if _, isPkg := p.TypesInfo.Uses[id].(*types.PkgName); isPkg {
+								v, _ := p.TypesInfo.Uses[x.Sel].(*types.Var)
+								return v
+							}
+						}
+						e = x.X
+						continue
+					case *ast.IndexExpr:
+						e = x.X
+						continue
+					case *ast.StarExpr:
+						return nil // through a pointer: the pointee is an object, not the variable
+					case *ast.Ident:
+						v, _ := p.TypesInfo.Uses[x].(*types.Var)
+						return v
+					}
+					return nil
+				}
+			}
+			report := func(lhs ast.Expr, pos token.Pos) {
+				v := rootVar(lhs)
+				if v == nil || v.Pkg() == nil || v.Parent() != v.Pkg().Scope() || !strings.HasPrefix(v.Pkg().Path(), core.ModPath) {
+					return
+				}
+				// a field or element reached through a package-level pointer is the pointee's state
+				if _, isPtr := v.Type().Underlying().(*types.Pointer); isPtr {
+					if _, direct := lhs.(*ast.Ident); !direct {
+						if se, isSel := lhs.(*ast.SelectorExpr); !isSel || func() bool { _, isPkg := p.TypesInfo.Uses[identOf(se.X)].(*types.PkgName); return !isPkg }() {
+							return
+						}
+					}
+				}
+				id := core.RelPkg(v.Pkg().Path()) + "." + v.Name()
+				st12.Instances++
+				why, listed := globalWriteOK[id]
+				st12.Ob(listed)
+				if listed {
+					usedGlobalOK[id] = true
+					st12.Sample("%s assigns %s: listed (%s)", rel+"."+core.DeclName(fd), id, why)
+					return
+				}
+				c.Report(core.Finding{Rule: "R05.12", Pkg: rel, Func: core.DeclName(fd), Detail: "global-written:" + id, Pos: c.Position(pos),
+					Msg: core.DeclName(fd) + " assigns the package-level variable " + id + " while a simulation runs: the value survives into the next simulation of the same process and is shared by every component of its type (all command processors, all GPUs), so the second run of a workload does not start from the state the first one started from"})
+			}
+			ast.Inspect(fd.Body, func(n ast.Node) bool {
+				switch x := n.(type) {
+				case *ast.AssignStmt:
+					if x.Tok == token.DEFINE {
+						return true
+					}
+					for _, l := range x.Lhs {
+						report(l, x.Pos())
+					}
+				case *ast.IncDecStmt:
+					report(x.X, x.Pos())
+				}
+				return true
+			})
+		})
+	}
+
 	// ---------------- R05.10 generated identifiers are only tested for identity ----------------
 	st10 := c.Rule("R05.10", "identifiers drawn from the process-wide generator (message IDs, RspTo, task IDs, wavefront / work-group UIDs: decimal strings of a counter that is never reset between simulations of one process) take part only in identity tests: no ordering comparison (<, <=, >, >=, strings.Compare) in simulation code has such an identifier as an operand. The order of two identifiers as strings changes when the counter passes a power of ten (\"100\" < \"99\"), so a tie-break or sort on them makes the second run of a workload in one process differ from the first", 6)
 	idTests := 0
@@ -582,4 +669,9 @@ func runC05(c *core.Ctx) core.Meta {
 		Explanation: "Structural sources of host-dependent order and values in the code that runs inside a simulation (driver, emulator, decoder, kernels, protocol, sampling, all timing components, timing configuration, NVIDIA model): every range over a map is classified as order-insensitive or justified by a one-line exception (re-validated where possible), host-dependent value sources are enumerated against an exception table whose sinks are checked to have no reader, goroutines/selects and unstable sorts are inventoried, and the simulation goroutine is woken only by a call that blocks until the queue is empty.",
 		NotDecided:  "equality of whole runs across host schedules; akita's engines (outside /repo); the parallel engine; floating-point summation order inside kernels",
 		Assumptions: commonAssumptions}
+}
+
+func identOf(e ast.Expr) *ast.Ident {
+	id, _ := e.(*ast.Ident)
+	return id
 }
